@@ -2039,3 +2039,179 @@ def check_C11(tier, seed):
     return res.finish(gate)
 
 CHECKS['C11'] = check_C11
+
+# ---------------------------------------------------------------- C16
+def scan_forms(text):
+    """Positions of every '(' ... ')' form and symbol-ish token: returns dict start(line,col) -> (end(line,col), slice).
+    Understands strings with escapes and ; comments, like the tokenizer."""
+    pos = []          # (line, col) for each char index, plus one past the end
+    line, col = 1, 1
+    for ch in text:
+        pos.append((line, col))
+        if ch == '\n': line += 1; col = 1
+        else: col += 1
+    pos.append((line, col))
+    forms = {}
+    stack = []
+    i = 0; n = len(text)
+    while i < n:
+        ch = text[i]
+        if ch == '"':
+            i += 1
+            while i < n and text[i] != '"':
+                if text[i] == '\\': i += 1
+                i += 1
+            i += 1; continue
+        if ch == ';':
+            while i < n and text[i] != '\n': i += 1
+            continue
+        if ch == '(':
+            stack.append(i); i += 1; continue
+        if ch == ')':
+            if stack:
+                s = stack.pop()
+                forms[pos[s]] = (pos[i + 1], text[s:i + 1])
+            i += 1; continue
+        if ch in " \t\r\n'`,@#.":
+            i += 1; continue
+        # identifier / number token
+        s = i
+        while i < n and text[i] not in ' \t\r\n)': i += 1
+        forms.setdefault(pos[s], (pos[i], text[s:i]))
+    return forms, pos
+
+ENTRY_RE = re.compile(r'^(.*?):(\d+)\.(\d+)-(\d+)\.(\d+):  at (.*)$')
+
+def check_C16(tier, seed):
+    from .gen import data
+    res = Result('C16', tier, seed); res.pending = []
+    gate = proof_gate('C16')
+    core.build_model(); core.build_impl()
+    rng = random.Random(seed)
+    # ---- part 1: positions reported by the reader equal the model's, for every node, in random layouts
+    rcases = []
+    for i in range(tier_n(tier, 600, 15000)):
+        v = data.gen_value(rng, rng.choice([1, 2, 3]))
+        pre = rng.choice(['', '"é漢" ', '; ünï\n', '\n\n', '"\U0001F600\\n\nx" ', 'é ', '\t'])
+        c = Case('s%d' % i)
+        c.parse(pre + data.layout(rng, data.tokens(v), 'as_built'))
+        rcases.append(c)
+    differential(res, rcases, label='Reader spans')
+    # ---- part 2: errors raised at every evaluation point
+    nprog = tier_n(tier, 200, 5000)
+    progs = []
+    for i in range(nprog):
+        g = programs.ProgGen(rng, tick_p=0.6, err_p=0.0)
+        texts = g.history(ntexts=1)
+        toks = []
+        for t in texts[-1]: toks += data.tokens(t)
+        body = rng.choice(['', '(setq pad "é漢\U0001F600 padding")\n', ';; cömment (\n', '(setq pad \'(' + ' '.join('"ééééééééé%d"' % k for k in range(12)) + '))\n']) + data.layout(rng, toks, 'as_built')
+        defs = programs.render_text(texts[0]) if len(texts) > 1 else ''
+        progs.append((defs, body))
+    base = []
+    for i, (defs, body) in enumerate(progs):
+        c = Case('b%d' % i)
+        if defs: c.eval(defs)
+        c.eval(body); base.append(c)
+    out0 = core.run_side(core.TLIMPL_DEBUG, base, announce=True)
+    cases = []; metas = []
+    for i, (defs, body) in enumerate(progs):
+        ls = out0.get('b%d' % i, [])
+        if not ls: continue
+        _, kind, payload, ticks = core.parse_line(ls[-1])
+        tl = [] if ticks in ('-', '?', None) else ticks.split(',')
+        ks = list(range(1, len(tl) + 1))
+        if len(ks) > 8: ks = sorted(rng.sample(ks, 8))
+        for k in ks:
+            mode = rng.choice(['string', 'string', 'file', 'nested'])
+            c = Case('e%d_%d' % (i, k))
+            if defs: c.eval(defs)
+            c.failat(k)
+            if mode == 'string': c.eval(body)
+            elif mode == 'file': c.file('prog.el', body); c.load('prog.el')
+            else: c.file('inner.el', body); c.file('outer.el', '(setq before 1)\n\n  (load "inner.el")\n'); c.load('outer.el')
+            cases.append(c); metas.append({'body': body, 'mode': mode, 'tick': int(tl[k - 1].split(':')[0]), 'defs': defs})
+    # code defined by a loaded file failing later, long forms with multi-byte characters around byte 80
+    extra = []
+    for j in range(tier_n(tier, 30, 300)):
+        c = Case('x%d' % j)
+        padding = 'é' * rng.randint(20, 45)
+        c.file('defs.el', '(defun from-file (v)\n  (list "%s" (tick 1 v) "%s" \'(%s)))\n' % (padding, padding, ' '.join(['sym%d' % k for k in range(rng.randint(0, 12))])))
+        c.load('defs.el'); c.failat(1); c.eval('(list 1\n   (from-file 2))')
+        extra.append(c)
+    env = {'TL_SHOWERR': '1'}
+    out = core.run_side(core.TLIMPL_DEBUG, cases + extra, env=env, announce=True)
+    nv = 0
+    distinct = set()
+    nentries = 0
+    for c, meta in list(zip(cases, metas)) + [(c, None) for c in extra]:
+        ls = out.get(c.cid, [])
+        if not ls: continue
+        l = ls[-1]
+        p = l.split(' ')
+        def bad(why, extra_=None):
+            nonlocal nv
+            nv += 1
+            if nv <= 8:
+                res.violation('location', dict({'requests': c.readable(), 'why': why, 'line': l[:300], 'raw_case': c.text()}, **(extra_ or {})))
+        if p[2] == 'P' or p[2] in ('A', 'H'):
+            bad('evaluating or rendering the error panicked'); continue
+        if p[2] != 'E' or 'M' not in p: continue
+        msg = unhx(p[p.index('M') + 1])
+        res.cov['evaluations'] += 1
+        entries = []
+        for ml in msg.split('\n')[1:]:
+            m = ENTRY_RE.match(ml)
+            if m: entries.append(m)
+        if meta is None:
+            # failure inside a function defined by a loaded file: entries must name defs.el or <eval_string>
+            for m in entries:
+                if not (m.group(1).endswith('defs.el') or m.group(1) == '<eval_string>'): bad('entry names a text that was not evaluated: ' + m.group(1))
+            continue
+        body = meta['body']
+        forms, pos = scan_forms(body)
+        first = True
+        for m in entries:
+            fname, sl, sc, el, ec, shown = m.group(1), int(m.group(2)), int(m.group(3)), int(m.group(4)), int(m.group(5)), m.group(6)
+            nentries += 1
+            expect_file = {'string': '<eval_string>', 'file': 'prog.el', 'nested': 'inner.el'}[meta['mode']]
+            in_body = fname == '<eval_string>' if meta['mode'] == 'string' else fname.endswith(expect_file)
+            if not in_body:
+                if meta['mode'] == 'nested' and fname.endswith('outer.el'):
+                    if (sl, sc) != (3, 3): bad('the load form of outer.el is reported at %d.%d' % (sl, sc))
+                    continue
+                if meta['defs'] and fname == '<eval_string>' and meta['mode'] != 'string': continue   # an entry inside a function defined earlier by eval_string
+                bad('entry names a text that was not evaluated: ' + fname); continue
+            if not ((sl, sc) < (el, ec)): bad('start is not before end', {'entry': m.group(0)}); continue
+            is_listish = shown.startswith('(') or re.fullmatch(r'[^\s()"\']+', shown) is not None
+            if meta['defs'] and fname == '<eval_string>':
+                # an earlier text of the same context has the same name: the entry may lie in it
+                dforms, _ = scan_forms(meta['defs'])
+                if (sl, sc) in dforms and dforms[(sl, sc)][0] == (el, ec):
+                    continue
+            if (sl, sc) not in forms:
+                if is_listish: bad('no list or symbol starts at the reported position %d.%d' % (sl, sc), {'entry': m.group(0)})
+                continue
+            end, src = forms[(sl, sc)]
+            if is_listish and end != (el, ec):
+                bad('extent %d.%d-%d.%d does not coincide with the form written there (%d.%d-%d.%d)' % (sl, sc, el, ec, sl, sc, end[0], end[1]), {'entry': m.group(0)}); continue
+            if first and shown.startswith('(tick '):
+                first = False
+                in_this_text = re.search(r'\(\s*tick\s+%d\b' % meta['tick'], re.sub(r';[^\n]*\n', ' ', body)) is not None
+                if in_this_text and not re.match(r'\(\s*tick\s+%d\b' % meta['tick'], re.sub(r';[^\n]*\n', ' ', src)):
+                    bad('innermost located entry is not the failing host call (tick %d ...)' % meta['tick'], {'entry': m.group(0), 'source_there': src[:100]})
+            distinct.add((sl, sc, el, ec, shown[:20]))
+    replay_known(res, 'C16')
+    res.cov['located_entries_checked'] = nentries
+    res.cov['distinct_nontrivial'] = len(distinct)
+    res.cov['rule'] = ('reader: %d data texts in random layouts after non-ASCII / multi-line prefixes, spans of every list and symbol equal to the model (Reader.read_ax); '
+                       'evaluation: %d generated programs laid out with random line breaks, indentation, comments and non-ASCII padding, a host failure injected at up to 8 evaluation points each, '
+                       'evaluated as a string, as a loaded file and through a nested load; Error::format output parsed back; oracle: rendering succeeds, every located entry names the evaluated text / file, '
+                       'start < end, the extent equals the extent of the list or symbol written at that position (independent scanner), the innermost located entry is the failing (tick k ..) form; '
+                       'plus functions defined by a loaded file failing later with long multi-byte forms' % (len(rcases), nprog))
+    res.cov['samples'] = [cases[0].readable()] if cases else []
+    for d in res.pending:
+        res.violation('disagreement', d, no_input=not oracle_confirms(d))
+    return res.finish(gate)
+
+CHECKS['C16'] = check_C16
